@@ -40,7 +40,7 @@ class Check(PropertyCheck):
                 "JS.C11_world_duration_ops", "JS.C11_world_duration_jobs", "JS.C11_world_duration_machines", "JS.C11_world_isScheduled_ops",
                 "JS.C11_world_isScheduled_machines", "JS.C11_world_isScheduled_jobs", "JS.C11_world_position", "JS.C11_world_remaining_jobs",
                 "JS.C11_world_remaining_machines", "JS.C11_world_completed_ops", "JS.C11_world_completed_jobs", "JS.C11_world_completed_machines",
-                "JS.C11_world_unscheduled", "JS.C11_est_is_earliest", "JS.C11_est_next_attained", "JS.C11_world_composite"]
+                "JS.C11_world_unscheduled", "JS.C11_est_is_earliest", "JS.C11_est_next_attained", "JS.C11_world_composite", "JS.C11_attach_leaves_others", "JS.C11_attach_frame", "JS.C11_world_attach"]
     RULE = ("random instance (all families; machine-level count features only checked on non-flexible ones; with a filter "
             "installed only positive durations, as the property states) x random subset and order of the seven feature "
             "observers, each with a random subset of its feature types, plus a composite over them, all created on the "
